@@ -19,6 +19,12 @@
 //	retk K ok|err|cancel      the same for the oldest run of key K that has not been told yet
 //	probe J | probek K | probeall    log ctx.Err() of run(s) that have not been told to return
 //	nilnext K                 the constructor returns a nil Routine at its next call for key K
+//	advhold                   like advance, but the first goroutine that wants a Keyed/KeyedRefCount mutex during
+//	                          the sleep (a timer callback that fired) is held before it takes it; no quiesce line
+//	opengate                  let that goroutine go, wait for quiet, log quiesce
+//	race N <call> ; <call>    two callers: the N-th mutex acquisition from now on is held, the first call is started,
+//	                          then the second, then the gate is opened (calls: addref K, release I, rcremove K,
+//	                          setkey K start|nostart, removekey K, getkeys)
 //	advance | settle | pause
 package keyed
 
@@ -54,6 +60,18 @@ type run struct {
 	cmd  chan string
 	told bool
 	done chan struct{}
+}
+
+// tagger is a TagSet that may be used from several goroutines.
+type tagger struct {
+	set comp.TagSet
+	mu  *sync.Mutex
+}
+
+func (t tagger) Add(s string) {
+	t.mu.Lock()
+	t.set.Add(s)
+	t.mu.Unlock()
 }
 
 type scriptedBackoff struct {
@@ -104,7 +122,9 @@ func ints(xs []int) string {
 
 func exec(script []string, opt comp.Options) (res comp.Result) {
 	log := hist.New()
-	tags := comp.TagSet{}
+	tagSet := comp.TagSet{}
+	var tagMu sync.Mutex
+	tags := tagger{set: tagSet, mu: &tagMu}
 	h := hook.Install(opt.Seed, hook.Perturb{Prob: 0.35, MaxSleep: 150 * time.Microsecond})
 	defer h.Uninstall()
 	rng := rand.New(rand.NewSource(opt.Seed ^ 0x6b657965))
@@ -302,6 +322,92 @@ func exec(script []string, opt comp.Options) (res comp.Result) {
 
 	burstStart := time.Now()
 	advances := 0
+	var held *hook.Gate
+	openGate := func() {
+		if held == nil {
+			return
+		}
+		held.Open()
+		held = nil
+		// the callback that was held runs at once; timers armed since the advance must not expire
+		// before the next advance line, so this wait is short and counts as part of the burst
+		comp.WaitQuiet(log, 1500*time.Microsecond, 6*time.Millisecond)
+		log.Add("quiesce")
+	}
+	waitHit := func(g hook.Gate, d time.Duration) <-chan struct{} {
+		c := make(chan struct{})
+		go func() {
+			if g.WaitHit(d) {
+				close(c)
+			}
+		}()
+		return c
+	}
+	// prep builds one of the calls a second caller may make
+	prep := func(f []string) (string, func() string, bool) {
+		if len(f) == 0 {
+			return "", nil, false
+		}
+		arg := func(i int) string {
+			if i < len(f) {
+				return f[i]
+			}
+			return "0"
+		}
+		switch f[0] {
+		case "addref":
+			if !rc {
+				return "", nil, false
+			}
+			k := atoi(arg(1))
+			return fmt.Sprintf("addref %d", k), func() string {
+				ref, d, e := a.addRef(k)
+				mu.Lock()
+				refs = append(refs, ref)
+				n := len(refs) - 1
+				mu.Unlock()
+				return fmt.Sprintf("ref %d %d %s", n, d, bs(e))
+			}, true
+		case "release":
+			i := atoi(arg(1))
+			mu.Lock()
+			ok := rc && i < len(refs)
+			var ref *keyed.KeyedRef[int, int]
+			if ok {
+				ref = refs[i]
+			}
+			mu.Unlock()
+			if !ok {
+				return "", nil, false
+			}
+			released[i] = true
+			return fmt.Sprintf("release %d", i), func() string { ref.Release(); return "unit" }, true
+		case "rcremove":
+			if !rc {
+				return "", nil, false
+			}
+			k := atoi(arg(1))
+			return fmt.Sprintf("rcremove %d", k), func() string { return "bool " + bs(a.rcRemove(k)) }, true
+		case "setkey":
+			if rc {
+				return "", nil, false
+			}
+			k, st := atoi(arg(1)), arg(2) == "start"
+			return fmt.Sprintf("setkey %d %s", k, map[bool]string{true: "start", false: "nostart"}[st]), func() string {
+				d, e := a.setKey(k, st)
+				return fmt.Sprintf("de %d %s", d, bs(e))
+			}, true
+		case "removekey":
+			if rc {
+				return "", nil, false
+			}
+			k := atoi(arg(1))
+			return fmt.Sprintf("removekey %d", k), func() string { return "bool " + bs(a.removeKey(k)) }, true
+		case "getkeys":
+			return "getkeys", func() string { return "keys" + ints(a.getKeys()) }, true
+		}
+		return "", nil, false
+	}
 	pendingRemoval := map[int]bool{}
 	for si, step := range script {
 		f := strings.Fields(step)
@@ -435,15 +541,21 @@ func exec(script []string, opt comp.Options) (res comp.Result) {
 			supersede(k)
 			call(fmt.Sprintf("addref %d", k), func() string {
 				ref, d, e := a.addRef(k)
+				mu.Lock()
 				refs = append(refs, ref)
-				return fmt.Sprintf("ref %d %d %s", len(refs)-1, d, bs(e))
+				n := len(refs) - 1
+				mu.Unlock()
+				return fmt.Sprintf("ref %d %d %s", n, d, bs(e))
 			})
 		case "release":
 			if !rc {
 				continue
 			}
 			i := atoi(arg(1))
-			if i >= len(refs) {
+			mu.Lock()
+			nrefsNow := len(refs)
+			mu.Unlock()
+			if i >= nrefsNow {
 				continue
 			}
 			if released[i] {
@@ -490,11 +602,77 @@ func exec(script []string, opt comp.Options) (res comp.Result) {
 			time.Sleep(time.Duration(rng.Intn(120)) * time.Microsecond)
 		case "settle":
 			comp.WaitQuiet(log, 400*time.Microsecond, 4*time.Millisecond)
+		case "opengate":
+			openGate()
+		case "race":
+			// race N call ; call
+			n := atoi(arg(1))
+			sep := -1
+			for i, x := range f {
+				if x == ";" {
+					sep = i
+				}
+			}
+			if sep < 3 || sep+1 >= len(f) || n < 1 {
+				continue
+			}
+			openGate()
+			i1, f1, ok1 := prep(f[2:sep])
+			i2, f2, ok2 := prep(f[sep+1:])
+			if !ok1 || !ok2 {
+				continue
+			}
+			tags.Add("two-callers")
+			g := h.AddGate("lock-enter", nil, n)
+			var cw sync.WaitGroup
+			cw.Add(2)
+			d1 := make(chan struct{})
+			go func() { defer cw.Done(); defer close(d1); call(i1, f1) }()
+			select { // the first caller is parked at the gate, or has returned
+			case <-d1:
+			case <-waitHit(g, 20*time.Millisecond):
+				tags.Add("caller-held-at-mutex")
+			}
+			go func() { defer cw.Done(); call(i2, f2) }()
+			time.Sleep(time.Duration(300+rng.Intn(700)) * time.Microsecond)
+			g.Open()
+			cd := make(chan struct{})
+			go func() { cw.Wait(); close(cd) }()
+			select {
+			case <-cd:
+			case <-time.After(2 * time.Second):
+				tags.Add("leaked-goroutine")
+			}
+		case "advhold":
+			if advances >= 8 {
+				continue
+			}
+			advances++
+			openGate()
+			if (delay || retry >= 0) && time.Since(burstStart) > burstLimit {
+				res.Unstable = true
+			}
+			g := h.AddGate("lock-enter", nil, 1)
+			log.Add("advance")
+			time.Sleep(3 * D)
+			if g.WaitHit(time.Millisecond) {
+				// a timer callback (or an exit bookkeeping) has fired and waits for the mutex
+				tags.Add("callback-held-at-mutex")
+				held = &g
+				comp.WaitQuiet(log, opt.Grace, 10*opt.Grace)
+			} else {
+				g.Open()
+				comp.WaitQuiet(log, opt.Grace, 10*opt.Grace)
+				log.Add("quiesce")
+			}
+			pendingRemoval = map[int]bool{}
+			burstStart = time.Now()
 		case "advance":
 			if advances >= 8 {
 				continue
 			}
 			advances++
+			openGate()
 			if (delay || retry >= 0) && time.Since(burstStart) > burstLimit {
 				// the epoch discipline was violated (machine too slow): not comparable
 				res.Unstable = true
@@ -516,6 +694,7 @@ func exec(script []string, opt comp.Options) (res comp.Result) {
 			burstStart = time.Now()
 		}
 	}
+	openGate()
 	if (delay || retry >= 0) && time.Since(burstStart) > burstLimit {
 		res.Unstable = true
 	}
@@ -569,7 +748,7 @@ func exec(script []string, opt comp.Options) (res comp.Result) {
 			tags.Add("returned-error")
 		}
 	}
-	res.History, res.Tags = lines, tags.List()
+	res.History, res.Tags = lines, tagSet.List()
 	return res
 }
 
@@ -606,6 +785,8 @@ func gen(rng *rand.Rand, tier string) []string {
 	how := func() string { return []string{"ok", "err", "err", "cancel"}[rng.Intn(4)] }
 	rs := func() string { return []string{"restart", "norestart"}[rng.Intn(2)] }
 	nrefs := 0
+	var refKey []int // key of every reference taken so far (generator's view)
+	addref := func(k int) string { refKey = append(refKey, k); nrefs++; return fmt.Sprintf("addref %d", k) }
 	nilScenario := rng.Intn(16) == 0 // a few scenarios have constructors that return nil routines
 	if rng.Intn(5) != 0 {
 		out = append(out, "setctx 1 norestart")
@@ -618,12 +799,52 @@ func gen(rng *rand.Rand, tier string) []string {
 			continue
 		}
 		inBurst++
+		// targeted placements (timer callbacks that have fired, two callers, failure while leaving)
+		if t := rng.Intn(100); t < 9 {
+			k := key()
+			switch {
+			case delay && retry > 0 && !rc && t < 3:
+				// the routine fails while its key is leaving; a non-restarting re-request keeps the retry
+				out = append(out, fmt.Sprintf("setkey %d start", k), "settle", fmt.Sprintf("removekey %d", k),
+					fmt.Sprintf("retk %d err", k), "settle",
+					[]string{fmt.Sprintf("setkey %d nostart", k), fmt.Sprintf("synckeys norestart %d", k)}[rng.Intn(2)],
+					"advance", "getkeys")
+				inBurst = 1
+				continue
+			case delay && !rc && t < 6:
+				// re-request after the removal timer fired, before its callback got the mutex
+				out = append(out, fmt.Sprintf("setkey %d nostart", k), fmt.Sprintf("removekey %d", k), "advhold",
+					[]string{fmt.Sprintf("setkey %d nostart", k), fmt.Sprintf("synckeys norestart %d", k), fmt.Sprintf("setkey %d start", k)}[rng.Intn(3)],
+					"getkeys", "opengate", "getkeys", fmt.Sprintf("getkey %d", k))
+				inBurst = 2
+				continue
+			case delay && rc && t < 6:
+				out = append(out, addref(k), fmt.Sprintf("release %d", nrefs-1), "advhold", addref(k), "getkeys", "opengate", "getkeys")
+				inBurst = 2
+				continue
+			case rc && t >= 6:
+				// two callers: the last reference is released while a new one is taken
+				out = append(out, fmt.Sprintf("rcremove %d", k), addref(k))
+				last := nrefs - 1
+				switch rng.Intn(4) {
+				case 0:
+					out = append(out, fmt.Sprintf("race 2 release %d ; %s", last, addref(k)))
+				case 1:
+					out = append(out, fmt.Sprintf("race 1 %s ; release %d", addref(k), last))
+				case 2:
+					out = append(out, fmt.Sprintf("race 2 release %d ; getkeys", last))
+				default:
+					out = append(out, fmt.Sprintf("race 2 rcremove %d ; %s", k, addref(k)))
+				}
+				out = append(out, "getkeys", fmt.Sprintf("getkey %d", k))
+				continue
+			}
+		}
 		r := rng.Intn(100)
 		switch {
 		case r < 18:
 			if rc {
-				out = append(out, fmt.Sprintf("addref %d", key()))
-				nrefs++
+				out = append(out, addref(key()))
 			} else {
 				out = append(out, fmt.Sprintf("setkey %d %s", key(), []string{"start", "nostart"}[rng.Intn(2)]))
 			}
@@ -636,8 +857,7 @@ func gen(rng *rand.Rand, tier string) []string {
 					out = append(out, fmt.Sprintf("rcremove %d", k))
 					if rng.Intn(2) == 0 {
 						// a reference taken after RemoveKey is the only live one
-						out = append(out, fmt.Sprintf("addref %d", k), fmt.Sprintf("release %d", nrefs), "getkeys")
-						nrefs++
+						out = append(out, addref(k), fmt.Sprintf("release %d", nrefs-1), "getkeys")
 					}
 				}
 			} else {
@@ -719,6 +939,16 @@ func init() {
 			{"config plain nodelay noretry", "setctx 1 norestart", "setkey 1 start", "advance", "nilnext 1", "reset 1", "reset 1", "advance", "probeall", "ret 0 ok", "settle", "retk 1 ok", "advance"},
 			// a nil routine is never started; the key behaves like any other
 			{"config plain delay noretry", "setctx 1 norestart", "nilnext 1", "setkey 1 start", "setkey 2 start", "getkeysdata", "restart 1", "setctx 2 restart", "removekey 1", "setkey 1 start", "advance", "getkeysdata", "removekey 1", "advance", "getkeys", "setkey 1 start", "advance", "probeall"},
+			// C07-s1: the routine fails while its key is leaving; SetKey(k, false) / SyncKeys(.., false) keep the key and its retry
+			{"config plain delay retry 50", "setctx 1 norestart", "setkey 1 start", "advance", "removekey 1", "retk 1 err", "settle", "setkey 1 nostart", "advance", "getkeys", "retk 1 err", "removekey 1", "advance", "getkeys"},
+			{"config plain delay retry 50", "setctx 1 norestart", "setkey 1 start", "setkey 2 start", "advance", "synckeys norestart 2", "retk 1 err", "settle", "synckeys norestart 1 2", "advance", "getkeysdata", "retk 1 ok", "advance"},
+			// C06-s2: the removal timer has fired, its callback waits for the mutex, the key is requested again
+			{"config plain delay noretry", "setctx 1 norestart", "setkey 1 start", "setkey 2 start", "removekey 1", "advhold", "setkey 1 nostart", "getkeys", "opengate", "getkeys", "getkey 1", "advance", "getkeys"},
+			{"config plain delay noretry", "setctx 1 norestart", "setkey 1 start", "setkey 2 start", "removekey 1", "removekey 2", "advhold", "synckeys norestart 1 2", "opengate", "getkeys", "advance", "getkeysdata"},
+			{"config rc delay noretry", "setctx 1 norestart", "addref 1", "release 0", "advhold", "addref 1", "getkeys", "opengate", "getkeys", "getkey 1", "advance", "getkeys"},
+			// C06-s3: two callers — the last reference is released while a new one is taken
+			{"config rc nodelay noretry", "setctx 1 norestart", "addref 1", "race 2 release 0 ; addref 1", "getkeys", "getkey 1", "release 1", "getkeys"},
+			{"config rc delay noretry", "setctx 1 norestart", "addref 1", "addref 2", "race 2 release 0 ; addref 1", "getkeys", "advance", "getkeys", "getkey 1", "race 2 rcremove 2 ; addref 2", "getkeys", "advance", "getkeys"},
 			// a routine that returned nil is still subject to the release delay
 			{"config plain delay noretry", "setctx 1 norestart", "setkey 1 start", "settle", "retk 1 ok", "settle", "removekey 1", "getkeys", "getkey 1", "advance", "getkeys"},
 			// a failed routine is removed at once even with a delay; retry then stops
